@@ -103,13 +103,14 @@ def run(prop, tier="quick", seed=0, replay=None, nshards=None, only=None):
         else:
             tail = open(os.path.join(work, f"log{i}.txt")).read()[-1500:]
             problems.append(f"shard {i} produced no output (exit {p.returncode}): {tail}")
-    res = merge(prop, mod, tier, seed, cells, outs, problems, time.time() - t0)
+    res = merge(prop, mod, tier, seed, cells, outs, problems, time.time() - t0,
+                partial=bool(only or replay))
     if not os.environ.get("GT_KEEP_WORK"):
         shutil.rmtree(work, ignore_errors=True)
     return res
 
 
-def merge(prop, mod, tier, seed, cells, outs, problems, wall):
+def merge(prop, mod, tier, seed, cells, outs, problems, wall, partial=False):
     known = load_known()
     ev = 0
     cellmap, fails, fail_counts, samples, counters, ratios = {}, {}, {}, [], {}, {}
@@ -184,14 +185,14 @@ def merge(prop, mod, tier, seed, cells, outs, problems, wall):
         inconclusive.append(f"{skipped} cells skipped (time budget)")
     if ev == 0:
         inconclusive.append("no comparison was evaluated")
-    for mname in getattr(mod, "REQUIRED_MONITORS", ()):
+    for mname in (() if partial else getattr(mod, "REQUIRED_MONITORS", ())):
         if sum(mon_evals.get(mname, {}).values()) == 0:
             inconclusive.append(f"deciding monitor {mname} was never evaluated")
     covrep = []
     for label, d in sorted(cov.items()):
         covrep.append({"region": label, "executable_lines": len(d["lines"]),
                        "hit": len(d["hit"])})
-        if not d["hit"] and len(cells) > 1 and not getattr(mod, "ANCHORS_OPTIONAL", False):
+        if not d["hit"] and not partial and not getattr(mod, "ANCHORS_OPTIONAL", False):
             inconclusive.append(f"anchored region {label} never executed")
     need = getattr(mod, "MIN_EVALUATIONS", {"quick": 1, "thorough": 1}).get(tier, 1)
     if ev < need:
